@@ -3266,3 +3266,7 @@ for _P, _R in (("C07", "R7.16"), ("C05", "R5.20")):
       "    for break_event in list(loop.break_events):\n",
       "    for break_event in tuple(loop.break_events):\n",
       "another spelling of the snapshot")
+T("C13", "twin-string-case-negated", JCFG,
+  '        if optional_list_value is None:\n            return tuple([None] * len(jq_key_path))\n        elif isinstance(optional_list_value, str):\n            return (optional_list_value,)\n        else:\n            try:\n                priority_optional_list = tuple(iter(optional_list_value))\n                for key in priority_optional_list:\n                    if not isinstance(key, str) and key is not None:\n                        raise TypeError(\n                            "Priority key value, within an iterable, must be "\n                            "a string or None"\n                        )\n                return tuple(priority_optional_list)\n            except TypeError:\n                raise TypeError("Key value must be iterable or a string")\n\n',
+  '        if optional_list_value is None:\n            return tuple([None] * len(jq_key_path))\n        elif not isinstance(optional_list_value, str):\n            try:\n                priority_optional_list = tuple(iter(optional_list_value))\n                for key in priority_optional_list:\n                    if not isinstance(key, str) and key is not None:\n                        raise TypeError(\n                            "Priority key value, within an iterable, must be "\n                            "a string or None"\n                        )\n                return tuple(priority_optional_list)\n            except TypeError:\n                raise TypeError("Key value must be iterable or a string")\n        else:\n            return (optional_list_value,)\n\n',
+  "the string case as the else-arm of a negated isinstance test (autotwin flip-if; R13.11 alarmed on it until the guard was read through `not`)")
